@@ -304,6 +304,8 @@ def seq_sort(elem):
         return z3.SeqSort(z3.BoolSort())
     if elem in ("str", "bytes_elem"):
         return z3.SeqSort(z3.SeqSort(z3.IntSort()))  # list of strings / list of byte strings
+    if elem == "opq":
+        return z3.SeqSort(vsort())  # list of opaque values (abstract mode)
     return z3.SeqSort(z3.IntSort())
 
 
@@ -364,6 +366,8 @@ def elem_kind_of(pyval):
             return "int", py
         if all(isinstance(e, str) or (isinstance(e, SSeq) and e.py == "str") for e in pyval):
             return "str", py
+        if all(isinstance(e, SOpq) for e in pyval):
+            return "opq", py
         if all(isinstance(e, (bool, SBool)) for e in pyval):
             return "bool", py
         if all(isinstance(e, (int, SInt, SBool)) for e in pyval):
@@ -386,6 +390,8 @@ def to_seq(x, elem=None, py=None):
         items = [z3.IntVal(ord(c)) for c in x]
     elif k == "str":
         items = [to_seq(e).t for e in x]
+    elif k == "opq":
+        items = [box(e).t for e in x]
     elif k == "bool":
         items = [_zb(e) for e in x]
     else:
@@ -617,6 +623,8 @@ def nth(s, i):
         return SBool(e)
     if ss.elem == "str":
         return SSeq(e, "char", "str")
+    if ss.elem == "opq":
+        return SOpq(e)
     return SInt(e)
 
 
@@ -646,6 +654,8 @@ def _nth_concat(ss, i):
                     e = part.arg(0)
                     if ss.elem == "str":
                         return SSeq(e, "char", "str")
+                    if ss.elem == "opq":
+                        return SOpq(e)
                     return SBool(e) if ss.elem == "bool" else SInt(e)
                 return nth(P, rel)
             off = off + ln
@@ -656,6 +666,8 @@ def _nth_concat(ss, i):
                     e = part.arg(0)
                     if ss.elem == "str":
                         return SSeq(e, "char", "str")
+                    if ss.elem == "opq":
+                        return SOpq(e)
                     return SBool(e) if ss.elem == "bool" else SInt(e)
                 return nth(P, rel)
             return None
